@@ -4,7 +4,8 @@
    Spec: spec/SpecSccTime.v. Only statements closed by `exact`. *)
 From Coq Require Import List ZArith QArith Bool.
 From PV Require Import lib.Sx lib.Str lib.Result model.SccTime model.SccStash model.SccPopon spec.SpecSccTime.
-From PV Require Import proofs.SccTimeFacts proofs.SccStashFacts proofs.SccPoponFacts.
+From PV Require Import model.SccDecoder spec.Spec608 spec.SpecScc05.
+From PV Require Import proofs.SccTimeFacts proofs.SccStashFacts proofs.SccPoponFacts proofs.SccPoponStage1 proofs.SccPoponTimesFacts.
 Import ListNotations.
 
 (* the string surgery of get_time (`_time[:-2] + str(int(_time[-2:]) + frames)`), the regex prefix match, the split
@@ -79,6 +80,21 @@ Theorem C06_flash_rejected : forall s caps, finish_read s = ROk caps ->
    caps = fix_last (st_caps s) /\ forall c, In c caps -> is_flash c = false.
 Proof. exact flash_rejected. Qed.
 Print Assumptions C06_flash_rejected.
+
+(* END TO END on the whole reader model, for the closed stage of the pop-on refinement (one load, one row of basic
+   characters at any address, codes single or doubled, any well-formed timecodes, any offset): the caption starts at
+   the exact instant its End-Of-Caption word is transmitted (line timecode + one frame per preceding code word) and
+   ends at the exact instant of the Erase-Displayed-Memory word. Staged statement `popon_times` = the same for every
+   well-formed pop-on program; the remaining stages are covered by the event-level theorem above + correspondence. *)
+Theorem C06_popon_single_load_times_partial : forall d r off tcA tcB,
+  basic_row r = true -> tc_wf tcA = true -> tc_wf tcB = true ->
+  let k := (Z.of_nat (length (emit_load d [r])) - (if d then 2 else 1))%Z in
+  exists t1 t2, (t1 == spec_instant tcA k off)%Q /\ (t2 == spec_instant tcB 0 off)%Q /\
+    (Qeq_bool t2 0 = false -> is_flash (mkPre t1 t2 [] None) = false ->
+     read off [(render_tc tcA, emit_load d [r]); (render_tc tcB, emit_clear d)] =
+     ROk [mkPre t1 t2 [CText (row_text r) (row_pos r)] (Some (row_pos r))]).
+Proof. exact popon_single_load_times. Qed.
+Print Assumptions C06_popon_single_load_times_partial.
 
 (* known defect #20 (offset beyond the timecodes): instants floored to 0 collide with the end == 0 sentinel *)
 Theorem C06_end_zero_sentinel_refuted :
